@@ -3,6 +3,7 @@ package main
 import (
 	"crypto/ed25519"
 	"crypto/x509"
+	"encoding/json"
 	"encoding/pem"
 	"fmt"
 	"os"
@@ -285,6 +286,25 @@ func genParseKey(r *runner) {
 				r.do(mk("crypto-signprivatekey", "alg", alg, "key", ks, "data", hx(r.rnd.Bytes(32))))
 				r.do(mk("crypto-verifypublickey", "alg", alg, "key", ks, "data", hx(r.rnd.Bytes(32)), "sig", hx(r.rnd.Bytes(64))))
 				r.do(mk("crypto-encryptpublickey", "alg", alg, "key", ks, "data", "0011", "aad", ""))
+				r.do(mk("crypto-decryptprivatekey", "alg", alg, "key", ks, "data", hx(r.rnd.Bytes(128)), "aad", ""))
+			}
+		}
+	}
+	// valid EC / RSA / OKP private JWKs whose private member is replaced by one of every length 0..70
+	for _, name := range []string{"p256", "p384", "p521", "rsa1024", "ed25519"} {
+		k := keyByName(name)
+		var m map[string]any
+		if json.Unmarshal(k.JWKPriv, &m) != nil {
+			continue
+		}
+		for n := 0; n <= 70; n++ {
+			m["d"] = urlB64(r.rnd.Bytes(n))
+			j, _ := json.Marshal(m)
+			ks := "jwk:" + hx(j)
+			r.do(mk("crypto-serializekey", "key", ks))
+			r.do(mk("crypto-parsekey", "raw", hx(j), "ct", "application/json"))
+			for _, alg := range []string{"ES256", "ES384", "ES512", "RS256", "PS256", "EdDSA", "RSA-OAEP"} {
+				r.do(mk("crypto-signprivatekey", "alg", alg, "key", ks, "data", hx(r.rnd.Bytes(32))))
 				r.do(mk("crypto-decryptprivatekey", "alg", alg, "key", ks, "data", hx(r.rnd.Bytes(128)), "aad", ""))
 			}
 		}
